@@ -167,7 +167,7 @@ Proof.
     - intros y IN. apply (cl_model _ _ _ _ C _ IN). }
   assert (U1 : UpWF w1) by (apply (UpWF_sameP w w1); [intros i; reflexivity|reflexivity|exact U]).
   destruct (ENV good_modify_model w1 m (fun y => set_mfiles y (m_files y ++ [N.of_nat (List.length (w_files w))])) C1 Lm) as (r2 & w2 & E2 & C2 & X2 & H2).
-  { intros y (A & B & D). split; [exact A|]. split; [exact B|exact D]. }
+  { intros y (A & D). split; [exact A|exact D]. }
   eapply runs_bind; [exact E2|]. intros [] ->. destruct H2 as (S2 & N2 & _).
   eapply runs_bind; [apply wget_val|]. intros a [= <-].
   assert (U2 : UpWF w2) by (eapply UpWF_sameP; eauto).
